@@ -92,7 +92,7 @@ CLAIMED["C13"] = dict(
          "loop takes <= maxIterations steps, chains that stop earlier are not cut, the cut is recorded and not an error, the async chain breaker "
          "drops the next event once the raise depth exceeds the bound. The async consumer loop has explicit fuel: C13_async_fanout_refuted shows a "
          "machine on which it is still busy after 300 iterations (finding F24). Tied to the code by K-macro on self-feeding machines at / below / "
-         "above the bound on both engines, with a watchdog. TIE T: the settle loop of eventless transitions (_process_transient_transitions / _settle_transient_transitions) has its shape checked on every run and its two tests - cut when the microstep counter exceeds maxIterations, go on while something eventless is selected - re-translated from the current source; that loop, around the model's select / process_event, is the model's settle (C13_settle_loop_is_the_source_sync / _async), so the bound theorems are about the loop as the source writes it.",
+         "above the bound on both engines, with a watchdog. TIE T: the settle loop of eventless transitions (_process_transient_transitions / _settle_transient_transitions) has its shape checked on every run and its two tests - cut when the microstep counter exceeds maxIterations, go on while something eventless is selected - re-translated from the current source; that loop, around the model's select / process_event, is the model's settle (C13_settle_loop_is_the_source_sync / _async), so the bound theorems are about the loop as the source writes it; likewise the sync drain loop _process_event_queue (C13_drain_loop_is_the_source) and one iteration of the asyncio consumer loop _run_event_loop with its chain-breaker and reset tests (C13_async_step_is_the_source).",
     technique="Coq proof (structural recursion on the code's counters) + vm_compute correspondence + watchdog + source-translated settle loop tests (tie T)",
     design_ref="DESIGN.md section 5 C13")
 CLAIMED["C14"] = dict(
